@@ -49,7 +49,7 @@ def run_fault_group(case):
         if ref['model'] is None:
             raise RuntimeError('fault-free reference run could not be built: %r' % (ref['error'],))
         _REF[key] = (ref['error'], [float(v) for v in ref['model'].pData.volFrac[-1]], dict(ref['therm'].faults.calls))
-    rerr, rfv, rcalls = _REF[key]
+    rerr, rfv, rcalls = _REF[key]   # the fault-free run tells how many interceptable calls exist
     ncalls = rcalls.get(method, 0)
     placements = [tuple(only)] if only is not None else list(itertools.combinations(range(min(K, ncalls)), nf))
     for pl in placements:
@@ -65,13 +65,6 @@ def run_fault_group(case):
             sig = v['sig'].replace('C03/', 'C03/fault:%s/' % method, 1)
             if sig not in viol:
                 viol[sig] = {'sig': sig, 'msg': 'faults %s at calls %r (fired %d): %s' % (method, list(pl), fired, v['msg'])}
-        if r['error'] is None and rerr is None and d is not None:
-            fv = [float(v) for v in d.volFrac[-1]]
-            for a, b in zip(fv, rfv):
-                if abs(a - b) > 0.5 * max(abs(b), 1e-4):
-                    sig = 'C03/fault:%s/diverged-from-fault-free/%s' % (method, base.get('system'))
-                    if sig not in viol:
-                        viol[sig] = {'sig': sig, 'msg': 'faults at calls %r: final volume fraction %r, fault-free %r' % (list(pl), fv, rfv)}
         outcomes.add('fired=%d/%s' % (fired, 'ok' if r['error'] is None else r['error'][0]))
     return {'viol': list(viol.values()), 'states': nstates, 'transitions': nstates, 'traces': nexec, 'evaluations': nexec,
             'nontrivial_count': nexec if ncalls > 0 else 0,
